@@ -34,7 +34,10 @@ def _expr(rng, names, depth):
         return _lit(rng)
     r = rng.random()
     if r < 0.55:
-        return "%s %s %s" % (_expr(rng, names, depth - 1), rng.choice(BINOPS), _expr(rng, names, depth - 1))
+        op = rng.choice(BINOPS)
+        if op == "^":      # not associative in Modelica: operands in parentheses
+            return "(%s) ^ (%s)" % (_expr(rng, names, depth - 1), _expr(rng, names, depth - 1))
+        return "%s %s %s" % (_expr(rng, names, depth - 1), op, _expr(rng, names, depth - 1))
     if r < 0.7:
         return "(%s)" % _expr(rng, names, depth - 1)
     if r < 0.8:
@@ -154,10 +157,41 @@ def variant(rng, txt, how):
     return None
 
 
+def syntax_errors(text):
+    """Number of syntax errors the *generated* ANTLR parser itself counts for `text` (rule stored_definition) —
+    independent of pymoca's error listener and of `_parse`: the reference for "the text has a syntax error"."""
+    import antlr4
+    from pymoca.generated.ModelicaLexer import ModelicaLexer
+    from pymoca.generated.ModelicaParser import ModelicaParser
+    lexer = ModelicaLexer(antlr4.InputStream(text))
+    lexer.removeErrorListeners()
+    p = ModelicaParser(antlr4.CommonTokenStream(lexer))
+    p.removeErrorListeners()
+    p.stored_definition()
+    return p.getNumberOfSyntaxErrors()
+
+
+BREAKS = ["noend", "nosemi", "paren", "badtoken", "double_eq", "double_op", "extra_paren", "end_noname", "double_semi"]
+
+
 def break_text(rng, txt, how=None):
-    """A syntactically broken variant of a valid text."""
-    how = how or rng.choice(["noend", "nosemi", "paren", "badtoken"])
+    """A syntactically broken variant of a valid text (some of them of the kind ANTLR repairs in-line by dropping
+    or inventing one token: doubled '=', doubled operator, extra ')', missing ';', missing name after 'end')."""
+    import re
+    how = how or rng.choice(BREAKS)
     lines = txt.rstrip("\n").split("\n")
+    if how == "double_eq":
+        return re.sub(r" = ", " = = ", txt, count=1) if " = " in txt else txt.rstrip("\n") + "\nequation x = = 1;\n"
+    if how == "double_op":
+        m = re.search(r" ([+*/]) ", txt)
+        return txt[:m.start()] + " %s %s " % (m.group(1), "*" if m.group(1) != "*" else "/") + txt[m.end():] if m else \
+            re.sub(r"(\w+);", r"\1 * / 2;", txt, count=1)
+    if how == "extra_paren":
+        return re.sub(r";", ");", txt, count=1)
+    if how == "end_noname":
+        return "\n".join(lines[:-1] + ["end ;"]) + "\n"
+    if how == "double_semi":
+        return re.sub(r";", ";;", txt, count=1)
     if how == "noend":
         return "\n".join(lines[:-1]) + "\n"
     if how == "nosemi":
